@@ -54,7 +54,7 @@ def gen_spec(rng, allow):
                     a.append(('insert',))
                     a.append(('put_glyph', rng.randrange(ncls)))
                     if not ('noassoc' in allow and rng.random() < 0.5):
-                        a.append(('assoc', [rng.choice([o for o in range(-k, L - k) if not (o < 0 and k + o - pre >= 0 and any(x[0] == 'assoc' for x in acts[k + o - pre]))] or [0])]))
+                        a.append(('assoc', [rng.choice([o for o in range(-k, L - k) if not (o < 0 and k + o - pre >= 0 and any(x[0] in ('assoc', 'put_copy', 'insert') for x in acts[k + o - pre]))] or [0])]))
                     a.append(('endins',))
                 elif r < 0.75:
                     a.append(('attr', 'AdvX', ('const', rng.randrange(-50, 900))))
@@ -62,12 +62,17 @@ def gen_spec(rng, allow):
                     a.append(('user', rng.randrange(2), ('const', rng.randrange(-3, 4))))
                 elif r < 0.9 and 'copy' in allow:
                     off = rng.randrange(-k, L - k)
-                    if off != 0:
+                    # Appendix B rule 4: never copy from an earlier item that this rule has already modified (the engine
+                    # serves such reads from a temporary copy or from the live slot depending on its load-time analysis,
+                    # and the documents do not define which)
+                    if off != 0 and not (off < 0 and k + off - pre >= 0 and acts[k + off - pre]):
                         a.append(('put_copy', off))
                 if a and a[0][0] != 'delete' and a[0][0] != 'insert' and rng.random() < 0.2:
                     a.append(('attr', 'ShiftX', ('gattr', 0, 4)))
                 if (not a or (a[0][0] != 'delete' and a[0][0] != 'insert')) and 'assoc' in allow and rng.random() < 0.3:
-                    a.append(('assoc', [rng.choice([o for o in range(-k, L - k) if not (o < 0 and k + o - pre >= 0 and any(x[0] == 'assoc' for x in acts[k + o - pre]))] or [0]) for _ in range(rng.randrange(1, 4))]))
+                    # (an item that has just been overwritten by put_copy must not name itself: same rule-4 exclusion)
+                    selfmod = any(x[0] == 'put_copy' for x in a)
+                    a.append(('assoc', [rng.choice([o for o in range(-k, L - k) if not (o == 0 and selfmod) and not (o < 0 and k + o - pre >= 0 and any(x[0] in ('assoc', 'put_copy', 'insert') for x in acts[k + o - pre]))] or [0]) for _ in range(rng.randrange(1, 4))]))
                 acts.append(a)
             cons = [None] * L
             if 'cons' in allow:
